@@ -60,6 +60,7 @@ Lemma unconfigured_backend_refused_internal h c cn tok f1 f2 :
   h_sessions (fst (step h (OHello c (HInternal b tok f1 f2)))) = h_sessions h.
 Proof.
   intros Hc Hs b Hb. cbn [step]. rewrite Hc, Hs. cbn [do_hello]. unfold throttled, fail_count. hsimpl.
+  destruct (N.eqb tok 4); hsimpl; [split; [intros m [H|[]]; injection H as <-; eauto|reflexivity]|].
   destruct (10 <=? _); hsimpl; [split; [intros m [H|[]]; injection H as <-; eauto|reflexivity]|].
   destruct (N.eqb tok 0); cbn [negb]; hsimpl.
   - rewrite Hb. unfold record_failure. hsimpl. split; [intros m [H|[]]; injection H as <-; eauto|reflexivity].
@@ -73,6 +74,7 @@ Lemma internal_bad_token_refused h c cn b tok f1 f2 :
   (forall m, In (ToConn c m) (snd (step h (OHello c (HInternal b tok f1 f2)))) -> exists e, m = SError e).
 Proof.
   intros Hc Hs Ht. cbn [step]. rewrite Hc, Hs. cbn [do_hello]. unfold throttled, fail_count. hsimpl.
+  destruct (N.eqb tok 4); hsimpl; [split; [reflexivity|intros m [H|[]]; injection H as <-; eauto]|].
   destruct (10 <=? _); hsimpl; [split; [reflexivity|intros m [H|[]]; injection H as <-; eauto]|].
   destruct (N.eqb_spec tok 0); [contradiction|]. cbn [negb]. unfold record_failure. hsimpl.
   split; [reflexivity|intros m [H|[]]; injection H as <-; eauto].
@@ -265,7 +267,8 @@ Proof.
   - destruct (v2_check (h_nb h') b t) eqn:Hv.
     + intros _. rewrite Hnb in Hv. now apply v2_check_accepts.
     + cbn [snd]. intros [H|[]]. discriminate.
-  - destruct (throttled h' (c_addr cn) ACT_INTERNAL); cbn [snd]; [intros [H|[]]; discriminate|].
+  - destruct (N.eqb tok 4); cbn [snd]; [intros [H|[]]; discriminate|].
+    destruct (throttled h' (c_addr cn) ACT_INTERNAL); cbn [snd]; [intros [H|[]]; discriminate|].
     destruct (N.eqb_spec tok 0) as [->|]; cbn [negb snd]; [|intros [H|[]]; discriminate].
     destruct (h_nb h' <=? b) eqn:Hb; cbn [snd]; [intros [H|[]]; discriminate|].
     intros _. split; [|reflexivity]. rewrite Hnb in Hb. apply N.leb_gt in Hb. now apply N.ltb_lt.
